@@ -377,6 +377,27 @@ def extract_poll_signal_shape():
     raise ExtractError("poll_signal: Ok(None) arm has a shape the translator does not understand")
 
 
+def extract_instance_shape():
+    """(tolerant, idem): do both lock() sites of the ids table ignore poisoning; is
+    WithRawSiginfo::init idempotent"""
+    b = strip_comments(read("src/iterator/backend.rs"))
+    sites = re.findall(r"registered_signal_ids\s*\.lock\(\)\s*\.(unwrap\(\)|unwrap_or_else\(\s*(?:std::sync::)?PoisonError::into_inner\s*\))", b)
+    if len(sites) != 2:
+        raise ExtractError("expected two lock() sites of registered_signal_ids, found %d in a shape the translator understands" % len(sites))
+    tolerant = all(x.startswith("unwrap_or_else") for x in sites)
+    if not tolerant and not all(x == "unwrap()" for x in sites):
+        tolerant = False   # mixed: one site still unwraps -> not tolerant
+    r = strip_comments(read("src/iterator/exfiltrator/raw.rs"))
+    m = re.search(r"fn\s+init\s*\(&self,\s*slot:\s*&Self::Storage,\s*_:\s*c_int\)\s*\{(.*?)\n    \}", r, re.S)
+    if not m:
+        raise ExtractError("WithRawSiginfo::init not found")
+    body = m.group(1)
+    if not re.search(r"let\s+old\s*=\s*slot\.0\.swap\(Box::into_raw\(new\),\s*Ordering::\w+\);\s*assert!\(old\.is_null\(\)", body):
+        raise ExtractError("WithRawSiginfo::init: swap/assert shape changed")
+    idem = bool(re.search(r"if\s+!slot\.0\.load\(Ordering::\w+\)\.is_null\(\)\s*\{\s*return;\s*\}.*slot\.0\.swap", body, re.S))
+    return tolerant, idem
+
+
 def extract_misc_consts():
     b = strip_comments(read("src/iterator/backend.rs"))
     m = re.search(r"const\s+MAX_SIGNUM\s*:\s*usize\s*=\s*(\d+)\s*;", b)
@@ -465,6 +486,19 @@ def write_if_changed(path, text):
         open(path, "w").write(text)
 
 
+ERRORS = {}
+
+
+def attempt(section, fn, fallback):
+    """run one translator section; on failure record the error and use a fallback that makes the
+    dependent proof obligations fail rather than silently keeping stale content"""
+    try:
+        return fn()
+    except ExtractError as e:
+        ERRORS[section] = str(e)
+        return fallback
+
+
 def main():
     os.makedirs(OUT, exist_ok=True)
     plat = platform_consts()
@@ -482,10 +516,10 @@ def main():
     write_if_changed(os.path.join(OUT, "Platform.lean"), "\n".join(lines))
 
     # Consts
-    fnames, fvals = extract_forbidden(plat)
-    libflags, nextid, flagexpr = extract_libflags(plat)
-    slots, bits, mask = extract_channel_consts()
-    maxsig, yield_every = extract_misc_consts()
+    fnames, fvals = attempt("forbidden", lambda: extract_forbidden(plat), ([], []))
+    libflags, nextid, flagexpr = attempt("libflags", lambda: extract_libflags(plat), (0, 0, "?"))
+    slots, bits, mask = attempt("channel_consts", extract_channel_consts, (0, 0, 0))
+    maxsig, yield_every = attempt("misc_consts", extract_misc_consts, (0, 1))
     lines = [hdr, "namespace SigHook.Gen\n"]
     lines.append("/-- `FORBIDDEN_IMPL` (non-windows arm): %s -/" % ", ".join(fnames))
     lines.append("def forbidden : List Int := [%s]" % ", ".join(lean_int(v) for v in fvals))
@@ -503,12 +537,17 @@ def main():
     lines.append("/-- half_lock.rs -/")
     lines.append("def YIELD_EVERY : Nat := %d" % yield_every)
     lines.append("/-- backend.rs `poll_signal`: re-checks `is_closed()` before answering `Pending` for a `None` of `poll_pending` -/")
-    lines.append("def pollRechecksClosed : Bool := %s" % ("true" if extract_poll_signal_shape() else "false"))
+    lines.append("def pollRechecksClosed : Bool := %s" % ("true" if attempt("poll_signal_shape", extract_poll_signal_shape, False) else "false"))
+    tol, idem = attempt("instance_shape", extract_instance_shape, (False, False))
+    lines.append("/-- backend.rs: both `registered_signal_ids.lock()` sites ignore poisoning -/")
+    lines.append("def lockToleratesPoison : Bool := %s" % ("true" if tol else "false"))
+    lines.append("/-- raw.rs: `WithRawSiginfo::init` returns early when the slot already has its channel -/")
+    lines.append("def initIdempotent : Bool := %s" % ("true" if idem else "false"))
     lines.append("\nend SigHook.Gen\n")
     write_if_changed(os.path.join(OUT, "Consts.lean"), "\n".join(lines))
 
     # Details
-    rows = extract_details(plat)
+    rows = attempt("details", lambda: extract_details(plat), [])
     lines = [hdr, "namespace SigHook.Gen\n",
              "inductive DefaultKind where | ignore | stop | term", "deriving DecidableEq, Repr\n",
              "/-- rows of `DETAILS` enabled on this platform: (name, number, default kind) -/",
@@ -518,7 +557,7 @@ def main():
     write_if_changed(os.path.join(OUT, "Details.lean"), "\n".join(lines))
 
     # Cause
-    crows, icause, hp, conv, default = extract_cause(plat)
+    crows, icause, hp, conv, default = attempt("cause", lambda: extract_cause(plat), ([], [], {}, {}, "Cause::Unknown"))
     lines = [hdr, "namespace SigHook.Gen\n",
              "inductive Cause where", "  | unknown | kernel | sentUser | sentTKill | sentQueue | sentMesgQ",
              "  | chldExited | chldKilled | chldDumped | chldTrapped | chldStopped | chldContinued",
@@ -544,7 +583,7 @@ def main():
     write_if_changed(os.path.join(OUT, "Cause.lean"), "\n".join(lines))
 
     # Orderings
-    sites = extract_orderings()
+    sites = attempt("orderings", extract_orderings, [])
     lines = [hdr, "import SigHook.Model.Ord", "namespace SigHook.Gen\nopen SigHook\n",
              "/-- every atomic call site: (file, fn, ordinal within fn, method, orderings) -/",
              "def orderings : List (String × String × Nat × String × List Ord) := ["]
@@ -557,8 +596,11 @@ def main():
     with open(SITES.replace(".json", ".txt"), "w") as f:
         for st in sites:
             f.write("%s %d %s#%d\n" % (st["file"], st["line"], st["fn"], st["ordinal"]))
-    print("extract: ok (%d platform consts, %d DETAILS rows, %d cause rows, %d atomic sites)" %
-          (len(plat), len(rows), len(crows), len(sites)))
+    with open(os.path.join(os.path.dirname(SITES), "extract_errors.json"), "w") as f:
+        json.dump(ERRORS, f, indent=1, sort_keys=True)
+    print("extract: %s (%d platform consts, %d DETAILS rows, %d cause rows, %d atomic sites)%s" %
+          ("ok" if not ERRORS else "PARTIAL", len(plat), len(rows), len(crows), len(sites),
+           "".join("; %s: %s" % kv for kv in sorted(ERRORS.items()))))
 
 
 if __name__ == "__main__":
